@@ -1,5 +1,6 @@
 import Lemmas.Lock
 import Model.LockEdges
+import Model.Handoff
 /-
 C20 — no deadlock (lock-order part) and lockset discipline.  What is proved here, about what:
 
@@ -214,5 +215,78 @@ theorem recursive_rlock_deadlocks : ∃ s, Reachable (fun l' l => l' = l) s ∧ 
       (.single ⟨0, .W, by simp [s4, s3, setWait], Or.inl ?_⟩)
     · simp [s4, s3, setWait]
     · simp [s4, s3, s2, setHeld, setWait]
+
+/-! ### (iii) joined goroutines: one-shot producers on buffered channels -/
+
+open Handoff in
+theorem handoff_inv (cap sends : Nat) (h : sends ≤ cap) (c : Ch)
+    (hr : Handoff.Reachable (start cap sends) c) : c.cap = cap ∧ c.buf + c.toSend ≤ c.cap := by
+  induction hr with
+  | init => simp [start]; exact h
+  | step _ hs ih =>
+    cases hs with
+    | sendBuf h1 h2 => simp at *; omega
+    | sendDirect h1 h2 => simp at *; omega
+    | recv h1 h2 => simp at *; omega
+    | leave => simp at *; exact ih
+
+/-- A producer that makes at most `cap` sends on a channel of capacity `cap` is never blocked, whatever
+the consumer does — in particular after the consumer has left to join it. -/
+theorem buffered_producer_never_blocks (cap sends : Nat) (h : Handoff.handoffOk cap sends = true)
+    (c : Handoff.Ch) (hr : Handoff.Reachable (Handoff.start cap sends) c) : ¬ Handoff.Blocked c := by
+  have hle : sends ≤ cap := by simpa [Handoff.handoffOk] using h
+  obtain ⟨_, hinv⟩ := handoff_inv cap sends hle c hr
+  intro ⟨hpos, hns⟩
+  apply hns
+  left
+  omega
+
+example : Handoff.handoffOk 1 1 = true ∧ Handoff.handoffOk 3 2 = true ∧ Handoff.handoffOk 0 1 = false := by decide
+
+/-- On an unbuffered channel the producer is blocked exactly when the consumer is gone … -/
+theorem unbuffered_blocked_iff_consumer_left (c : Handoff.Ch) (hcap : c.cap = 0) (hpos : 0 < c.toSend) :
+    Handoff.Blocked c ↔ c.consumer = false := by
+  unfold Handoff.Blocked Handoff.canSend
+  constructor
+  · intro ⟨_, h⟩
+    cases hc : c.consumer with
+    | false => rfl
+    | true => exact absurd (Or.inr hc) h
+  · intro hc
+    refine ⟨hpos, ?_⟩
+    intro h
+    rcases h with h | h
+    · omega
+    · rw [hc] at h; exact absurd h (by decide)
+
+/-- … and then it stays blocked for ever (the spawner's wg.Wait() never returns): the state reached by
+`make(chan *fsmMsg)` + one message read + the handler leaving through a returning branch. -/
+theorem unbuffered_blocked_forever (c c' : Handoff.Ch) (hcap : c.cap = 0) (hb : Handoff.Blocked c)
+    (hs : Handoff.Step c c') : Handoff.Blocked c' ∧ c'.cap = 0 := by
+  obtain ⟨hpos, hns⟩ := hb
+  have hcons : c.consumer = false := by
+    cases hc : c.consumer with
+    | false => rfl
+    | true => exact absurd (Or.inr hc) hns
+  cases hs with
+  | sendBuf _ h2 => omega
+  | sendDirect _ h2 => rw [hcons] at h2; exact absurd h2 (by decide)
+  | recv h1 _ => rw [hcons] at h1; exact absurd h1 (by decide)
+  | leave =>
+    refine ⟨⟨hpos, ?_⟩, hcap⟩
+    intro h
+    rcases h with h | h
+    · simp at h; omega
+    · simp at h
+
+/-- the blocked state is reachable with an unbuffered channel and a single message -/
+theorem unbuffered_one_shot_can_block :
+    ∃ c, Handoff.Reachable (Handoff.start 0 1) c ∧ Handoff.Blocked c :=
+  ⟨_, .step .init (.leave _), by
+    refine ⟨by decide, ?_⟩
+    intro h
+    rcases h with h | h
+    · exact absurd h (by decide)
+    · exact absurd h (by decide)⟩
 
 end C20
